@@ -12,6 +12,7 @@ Decided
       probe labels are concatenated in input order; positions: only x is changed, by an accumulator computed from the already
       shifted probe as 2*max - min (>= its max x); optional matrices are block_diag of the per-probe matrices in input order
   D1  merged params: n_channels_dat = sum over the probes, everything else (sampling rate) from the first probe
+  +   (the probe list itself is the caller's, in the caller's order: shared rule of C11)
 Not decided: that the x-translation separates degenerate (zero-width) probes; presence combinations of optional files.
 """
 import ast
@@ -683,6 +684,8 @@ def s2_offsets_prerequisite(ctx):
 
 
 def run(ctx):
+    from obligations.C11 import probe_order
+    ctx.part('C12.S3', probe_order, 'C12.S3')
     ctx.part('C12.S2', s2_offsets_prerequisite)
     ctx.part('C12.S1', s1_templates)
     ctx.part('C12.S2', s2_template_data)
